@@ -587,12 +587,16 @@ class OnePass(bytearray):
     (a line was consumed) find() reports no further mark, as if the rest had not arrived yet - the next pass then
     waits (yields None, consumes nothing), so next() on the real generator == one pass of the step contract"""
     consumed = False
+    finds = 0
 
     def __delitem__(self, k):
         self.consumed = True
         return bytearray.__delitem__(self, k)
 
     def find(self, *a):
+        self.finds += 1
+        if self.finds > 20000:        # a generator that loops without consuming or yielding: stop the harness
+            raise RuntimeError("harness: the generator makes no progress (no yield, nothing consumed)")
         if self.consumed:
             return -1
         return bytearray.find(self, *a)
